@@ -190,6 +190,29 @@ func runMarkup(r *ev.Report, ca carrier, a rune, e encoding) {
 				r.Eval(2)
 			}
 		}
+		// the first thing a fresh object is asked for, at the widths around the one a rendering
+		// may have been prepared for (80 columns, and the terminal widths at which the body or a
+		// parent's preview is 80 columns wide): what an object answers first must be as safe as
+		// what it answers after a sweep
+		for _, w := range []int{80, 84, 88} {
+			if m, _, err := (object.Object{"content": doc, "mediaType": ca.MT}).GetMarkup("content", "mediaType"); err == nil {
+				c.Sink, c.Width = "fresh Markup.Render", w
+				judge(r, c, m.Render(w))
+			}
+			if p, err := pub.NewPostFromObject(object.Object{"type": "Note", "content": doc, "mediaType": ca.MT, "name": "t"}, nil); err == nil {
+				c.Sink, c.Width = "fresh Post.String", w
+				judge(r, c, p.String(w))
+			}
+			if p, err := pub.NewPostFromObject(object.Object{"type": "Note", "content": doc, "mediaType": ca.MT, "name": "t"}, nil); err == nil {
+				c.Sink, c.Width = "fresh Post.Preview", w
+				judge(r, c, p.Preview(w))
+			}
+			if a, err := pub.NewActorFromObject(object.Object{"type": "Person", "summary": doc, "mediaType": ca.MT, "name": "n"}, nil); err == nil {
+				c.Sink, c.Width = "fresh Actor.String", w
+				judge(r, c, a.String(w))
+			}
+			r.Eval(4)
+		}
 		act, err := pub.NewActorFromObject(object.Object{"type": "Person", "summary": doc, "mediaType": ca.MT, "name": "n"}, nil)
 		if err == nil {
 			for _, w := range []int{7, 80} {
@@ -513,7 +536,7 @@ func main() {
 	r := ev.New("C01", "exploration",
 		"atoms: every C0/DEL/C1 code point except newline (quick: NUL,BEL,BS,TAB,ESC,DEL,CSI,OSC), each followed by the tell-tale '[7m'; 37 markup carriers (HTML text/attributes/pre/code/unknown tag, text and attributes after several closing tags in a row and deep inside nested elements, Markdown text/destination/title/code/autolink/alt/raw HTML, gemtext, plain text) x 7 encodings "+
 			"(raw, decimal/hex/zero-padded/semicolon-less references, double-encoded, named) through Markup.Render, Post.String/Preview, Actor.String/Preview; every string field of actors, posts, activities and their nested links (with a name and without one, so that the address itself is displayed), authors and collections as string, list, object, hostile key, entity-in-plain-field, percent-encoded inside a URL (host; path, query and fragment) and raw inside a URL's query or opaque part; "+
-			"13 positions in raw HTTP responses (status line, Content-Type, Location, body, header name) x start/middle/end through pub.New's failure item and through 10 kinds of document that refer to the failing URL (actor outbox, activity actor/object, post author/audience/parent/replies, collection first page), with every related item inspected; UI frames (normal, selection, opening, problem, command footers) for worlds carrying the atoms; the bytes the built program writes to a pseudo-terminal for a hostile page; widths {1,2,7,80,81}; "+
+			"13 positions in raw HTTP responses (status line, Content-Type, Location, body, header name) x start/middle/end through pub.New's failure item and through 10 kinds of document that refer to the failing URL (actor outbox, activity actor/object, post author/audience/parent/replies, collection first page), with every related item inspected; UI frames (normal, selection, opening, problem, command footers) for worlds carrying the atoms; the bytes the built program writes to a pseudo-terminal for a hostile page; widths {1,2,7,80,81} in one sweep per object, and 80/84/88 each as the first thing a fresh object is asked for; "+
 			"distinct_nontrivial = (carrier, atom, encoding) triples")
 	palette = oracle.Palette{Colors: []string{config.Parsed.Style.Colors.Primary, config.Parsed.Style.Colors.Error, config.Parsed.Style.Colors.Highlight, config.Parsed.Style.Colors.Code}}
 	w.Install()
